@@ -42,7 +42,10 @@ for m in corpus:
             good = r.returncode==0 and not viol
             print(('PASS ' if good else 'FAIL ')+f"control {m['prop']} {m['name']}: exit={r.returncode} violations={len(viol)}")
         else:
-            hit=[l for l in viol if fnmatch.fnmatch(l.split('obligation=')[1].split(' ')[0] if 'obligation=' in l else '', m['expect'])]
+            def glob(g,x):
+                import re
+                return re.fullmatch('.*'.join(re.escape(p) for p in g.split('*')), x) is not None
+            hit=[l for l in viol if glob(m['expect'], l.split('obligation=')[1].replace(' no-failing-input-found','') if 'obligation=' in l else '')]
             good = r.returncode==1 and len(hit)>0
             print(('PASS ' if good else 'FAIL ')+f"mutant  {m['prop']} {m['name']}: exit={r.returncode} violations={len(viol)} matching '{m['expect']}': {len(hit)}")
         if not good or a.v:
